@@ -338,6 +338,30 @@ class SQLiteGenerator(generator.Generator):
         separator = expression.args.get("separator")
         return f"GROUP_CONCAT({distinct_sql}{self.format_args(this, separator)})"
 
+    def dpipe_sql(self, expression: exp.DPipe) -> str:
+        # || binds tighter than the arithmetic and bitwise operators in SQLite but looser elsewhere,
+        # so parenthesize such operands to preserve the grouping: https://sqlite.org/lang_expr.html
+        for operand in list(expression.flatten(unnest=False)):
+            if isinstance(
+                operand,
+                (
+                    exp.Add,
+                    exp.Sub,
+                    exp.Mul,
+                    exp.Div,
+                    exp.IntDiv,
+                    exp.Mod,
+                    exp.BitwiseAnd,
+                    exp.BitwiseOr,
+                    exp.BitwiseXor,
+                    exp.BitwiseLeftShift,
+                    exp.BitwiseRightShift,
+                ),
+            ):
+                operand.replace(exp.Paren(this=operand.copy()))
+
+        return super().dpipe_sql(expression)
+
     def least_sql(self, expression: exp.Least) -> str:
         if expression.expressions:
             return rename_func("MIN")(self, expression)
